@@ -535,7 +535,10 @@ def main():
                 ("mc", 300, 0, 0, True), ("three_re", 300, 0, 0, True)]
     for cfgname, nr, nd, bound, lines in plan:
         traces = explore(chk, cfgname, nr, nd, bound, lines)
-        validate(chk, cfgname, traces)
+        if not lines:
+            # schedules at source-line granularity are judged by the oracle only: there the injected re-entrant send may start
+            # at a line that is not an operation of the specification
+            validate(chk, cfgname, traces)
     # one directed schedule far outside the bounds: a long backlog behind a held writer, then a re-entrant send on the writer
     trace, bad, plan_used, white = run_impl("backlog", BacklogPolicy(), max_steps=60000)
     chk.evaluated()
